@@ -353,6 +353,10 @@ func (g *progGen) genInt(d int) *PNode {
 	case 0, 1:
 		return pbin(pickOne(g.s, []string{"+", "-", "*", "div", "mod"}), g.gen("I", d-1), g.gen("I", d-1))
 	case 2:
+		if g.s.Prob(6) {
+			// the magnitude of MinInt32 is not an Integer literal: every rendering must be rejected alike
+			return &PNode{K: "pol", Op: "-", Recv: lit(pickOne(g.s, []string{"2147483648", "2147483648", "2147483649", "4294967296"}))}
+		}
 		return &PNode{K: "pol", Op: pickOne(g.s, []string{"-", "-", "+"}), Recv: g.gen("I", d-1)}
 	case 3:
 		return pfn(g.gen("S", d-1), "length")
@@ -606,4 +610,31 @@ func genProgram(s Src, depth, illPct int) *PNode {
 func genProgramOf(s Src, typ string, depth, illPct int) *PNode {
 	g := &progGen{s: s, illPct: illPct, budget: 40}
 	return g.gen(typ, depth)
+}
+
+// withLeafParens: a copy of the tree in which every literal, variable and $this that
+// stands as an operand, receiver or argument is wrapped in an explicit pair of parentheses
+// ("-(2147483648)", "(%i) + (1)"): parentheses around a term never change the meaning.
+func (n *PNode) withLeafParens() *PNode {
+	if n == nil {
+		return nil
+	}
+	wrapLeaf := func(c *PNode) *PNode {
+		if c == nil {
+			return nil
+		}
+		switch c.K {
+		case "lit", "var", "this":
+			cp := *c
+			return &PNode{K: "par", Recv: &cp}
+		}
+		return c.withLeafParens()
+	}
+	cp := *n
+	cp.Recv = wrapLeaf(n.Recv)
+	cp.Args = nil
+	for _, a := range n.Args {
+		cp.Args = append(cp.Args, wrapLeaf(a))
+	}
+	return &cp
 }
